@@ -8,10 +8,12 @@
 //! 7 zero scalars (ids, offsets, counts, timeouts, flags), 8 extreme scalars (MAX / -1 / all flags)
 //! Per case (must run under sysmon, `--scope-markers`):
 //!   BEGIN(w, c, mode, r|variant, shape)   mode 0 = forced, 1 = real
-//!   forced: INJECT(thread, nr, 0, r, FORCED_N) then INJECT(thread, nr, 0, -EBADF, FUSE_N): the call is never
-//!           executed; a wrapper that re-issues keeps seeing r, after FORCED_N re-issues it sees EBADF (fuse)
-//!   real:   INJECT(thread, nr, REAL_N, -EBADF, FUSE_N): the first REAL_N issues run for real
-//!   <the wrapper call, nothing else>
+//!   forced: INJECT(thread, ANY, 0, r, FORCED_N) then INJECT(thread, ANY, 0, -EBADF, FUSE_N): whatever system
+//!           call the wrapper makes first is never executed and answers r; a wrapper that issues more calls keeps
+//!           seeing r, after FORCED_N of them it sees EBADF (fuse). The injection is number-agnostic: which of
+//!           several equivalent system calls a wrapper uses is its own business
+//!   real:   INJECT(thread, ANY, REAL_N, -EBADF, FUSE_N): the first REAL_N system calls run for real
+//!   <the wrapper call, nothing else: every non-marker system call of this thread in the window is the wrapper's>
 //!   END(w, c, kind, value, extra)  kind 0 = Ok, 1 = Err, 2 = panicked; value = errno code or projected value;
 //!                                  extra: Err without code -> 1; wait_pid status; pipe fds
 //! Arguments are prepared before BEGIN and resources released after END (through libc, not through rusl).
@@ -68,7 +70,8 @@ macro_rules! table {
     }
 }
 
-// name = system call number the wrapper is expected to issue (x86_64), from the wrapper's documentation
+// name = system call number the wrapper is expected to issue on x86_64 (informational only: the driver notes a
+// different observed number in the evidence, it never judges on it)
 table! {
     chdir = 80;
     close = 3;
@@ -631,7 +634,7 @@ fn prepare(w: W, p: &mut Prep, cx: &mut Ctx) {
 
 /// The wrapper call itself: the only code between the INJECT markers and END.
 #[allow(clippy::too_many_lines, clippy::cast_possible_wrap)]
-fn call(w: W, p: &mut Prep, cx: &Ctx) -> Out {
+fn call(w: W, p: &mut Prep, _cx: &Ctx) -> Out {
     use rusl::{futex, hidio, io_uring as ur, ioctl, network as net, process as pr, select as sel, termios, time, unistd as u, usb};
     let page = NonZeroUsize::new(4096).unwrap();
     let huge = NonZeroUsize::new(usize::MAX).unwrap();
@@ -804,10 +807,6 @@ fn call(w: W, p: &mut Prep, cx: &Ctx) -> Out {
                     _ => pr::clone3(&mut Clone3Args::new(CloneFlags::empty())).map(|v| v as i64),
                 }
             };
-            // a process-creating call that really ran (fuse exhausted): the child must not continue the probe
-            if unsafe { syscall(39) } != cx.pid {
-                unsafe { _exit(0) };
-            }
             match r {
                 Ok(v) => Out { kind: 0, val: v, extra: 0 },
                 Err(e) => err(e),
@@ -968,7 +967,9 @@ fn main() {
         eprintln!("wrap_probe: not running under sysmon");
         std::process::exit(3);
     }
-    std::panic::set_hook(Box::new(|_| {}));
+    // a panic inside a wrapper: stop forcing at once, so that the panic runtime's own system calls (allocation,
+    // unwinding) are not answered with the forced value; the case is then reported as kind 2 = panicked
+    std::panic::set_hook(Box::new(|_| marker::disarm()));
     let pid = unsafe { syscall(39) };
     let tmp = format!("/tmp/c09-probe-{pid}");
     let _ = std::fs::remove_dir_all(&tmp);
@@ -1001,7 +1002,7 @@ fn main() {
         let c: i64 = f[1].parse().expect("case id");
         let real = f[2] == "R";
         let x: i64 = f[3].parse().expect("value");
-        let (w, _, nr) = ALL[wi];
+        let (w, _, _nr) = ALL[wi];
         let mut p = Prep {
             real,
             var: if real { x } else { 0 },
@@ -1027,14 +1028,18 @@ fn main() {
         IN_CASE.store(true, core::sync::atomic::Ordering::Relaxed);
         marker::mark(marker::BEGIN, wi as i64, c, i64::from(real), x, shape);
         if real {
-            marker::inject(marker::SCOPE_THREAD, nr, REAL_N, -EBADF, FUSE_N);
+            marker::inject(marker::SCOPE_THREAD, marker::ANY_NR, REAL_N, -EBADF, FUSE_N);
         } else {
-            marker::inject(marker::SCOPE_THREAD, nr, 0, x, FORCED_N);
-            marker::inject(marker::SCOPE_THREAD, nr, 0, -EBADF, FUSE_N);
+            marker::inject(marker::SCOPE_THREAD, marker::ANY_NR, 0, x, FORCED_N);
+            marker::inject(marker::SCOPE_THREAD, marker::ANY_NR, 0, -EBADF, FUSE_N);
         }
         let out = catch_unwind(AssertUnwindSafe(|| call(w, &mut p, &cx)))
             .unwrap_or(Out { kind: 2, val: 0, extra: 0 });
         marker::end(wi as i64, c, out.kind, out.val, out.extra);
+        // a process-creating call that really ran (fuse exhausted): the child must not continue the probe
+        if matches!(w, W::fork | W::clone | W::clone3) && unsafe { syscall(39) } != cx.pid {
+            unsafe { _exit(0) };
+        }
         IN_CASE.store(false, core::sync::atomic::Ordering::Relaxed);
         cleanup(w, &p, out);
         done += 1;
